@@ -145,9 +145,11 @@ if kind == "inlet":
         if zu.count(u) != 1:
             bad = "inlet particle %%d occurs %%d times in the inlet" %% (u, zu.count(u))
         else:
-            i = zu.index(u); exp = x + (length*nrm[0] if entered else 0.0)
-            if abs(za.x[i] - exp) > 1e-9*(1 + abs(exp)):
-                bad = "inlet particle %%d x=%%r expected %%r" %% (u, za.x[i], exp)
+            i = zu.index(u)
+            for got, old, nc, nm in ((za.x[i], x, nrm[0], "x"), (za.y[i], y, nrm[1], "y"), (za.z[i], z, nrm[2], "z")):
+                exp = old + (length*nc if entered else 0.0)
+                if abs(got - exp) > 1e-9*(1 + abs(exp)):
+                    bad = "inlet particle %%d %%s=%%r expected %%r" %% (u, nm, got, exp)
     for (u, x, y, z) in before["fluid"]:
         if fu.count(u) != 1: bad = "fluid particle %%d occurs %%d times" %% (u, fu.count(u))
     if len(fu) != len(before["fluid"]) + sum(1 for (u, x, y, z) in before["zone"] if disp(x, y, z) <= tol):
